@@ -8,7 +8,9 @@ import (
 	"strings"
 
 	"verif/internal/chk"
+	"verif/internal/dt"
 	"verif/internal/impl"
+	"verif/internal/model"
 	"verif/internal/run"
 )
 
@@ -22,6 +24,46 @@ func init() {
 	chk.RegisterWorker("c01macro", workC01Macro)
 	chk.RegisterWorker("c01include", workC01Include)
 	chk.RegisterWorker("c01root", workC01Root)
+	chk.RegisterWorker("c01models", workC01Models)
+}
+
+// workC01Models: F6 — every generated valid model (canonical layout), with its top-level blocks in the original and in
+// the reversed order (declaration-order dependent paths: types used before their declaration, enums declared late).
+func workC01Models(w *run.W) {
+	var p struct {
+		Budget int `json:"budget"`
+	}
+	json.Unmarshal(w.Params, &p)
+	dir := workerDir(w)
+	defer os.RemoveAll(dir)
+	pal := model.DefaultPalette()
+	idx := int64(-1)
+	model.EnumDocs(pal, p.Budget, 0, func(d *model.Doc) {
+		idx++
+		if !w.Mine(idx) || !w.Begin(fmt.Sprintf("model%d", idx)) {
+			return
+		}
+		defer w.End()
+		for _, rev := range []bool{false, true} {
+			dd := d
+			if rev {
+				if len(d.Blocks) < 2 {
+					continue
+				}
+				r := &model.Doc{}
+				for i := len(d.Blocks) - 1; i >= 0; i-- {
+					r.Blocks = append(r.Blocks, d.Blocks[i])
+				}
+				dd = r
+			}
+			l := canonGlobal.Layout()
+			l.Only = map[string]bool{}
+			l.Reset()
+			r := dt.Render(dd.ToTree(&l), &l)
+			c01Total(w, "models", project(r), dir)
+			w.Nontrivial(r.Files[r.Root])
+		}
+	})
 }
 
 // c01Total runs one build (+ ToJson when accepted) and reports anything that is not "catalog or located error".
@@ -366,6 +408,7 @@ func runC01(c *chk.Ctx) {
 		params any
 	}{
 		{"c01root", map[string]any{}},
+		{"c01models", map[string]any{"budget": chk.Pick(c, 3, 4)}},
 		{"c01bytes", c01BytesParams{Depth: chk.Pick(c, 4, 5), Triples: !c.Quick()}},
 		{"c01seq", c01SeqParams{Len: 3}},
 		{"c01macro", c01MacroParams{Macros: 3}},
@@ -384,6 +427,6 @@ func runC01(c *chk.Ctx) {
 		}
 	}
 	c.Cov["families"] = fam
-	c.Cov["rule"] = "five exhaustively enumerated families: (bytes) all 256 bytes and all pairs of ~50 class-representative bytes after the shortest witness of every scanner control state up to the token depth; (sequences) all sequences of well-formed and malformed directive instances up to the length bound, with and without a leading JSIGHT; (macro-graphs) all PASTE graphs over k macros incl. cycles and undefined targets; (include-graphs) all include lists over files/missing/directory/empty/dot targets x placements, on a real directory; (root) nonexistent/directory/empty root and every single byte. Oracle: a catalog or a non-nil located error, no recovered panic, no fatal error, no hang. non-trivial = distinct input, counted by content hash"
+	c.Cov["rule"] = "six exhaustively enumerated families: (models) every generated valid model within the node budget with its top-level blocks in declaration and in reversed order; (bytes) all 256 bytes and all pairs of ~50 class-representative bytes after the shortest witness of every scanner control state up to the token depth; (sequences) all sequences of well-formed and malformed directive instances up to the length bound, with and without a leading JSIGHT; (macro-graphs) all PASTE graphs over k macros incl. cycles and undefined targets; (include-graphs) all include lists over files/missing/directory/empty/dot targets x placements, on a real directory; (root) nonexistent/directory/empty root and every single byte. Oracle: a catalog or a non-nil located error, no recovered panic, no fatal error, no hang. non-trivial = distinct input, counted by content hash"
 	c.Assumptions = append(c.Assumptions, "time proportional to the input is not decided; only absence of hangs (20 s per-case deadline, believed after reproduction)")
 }
